@@ -565,7 +565,7 @@ func scenario(name string, cases []hcase, grouped bool) e1lib.Scenario {
 		var out []rt.Finding
 		for _, k := range keys {
 			w := byKey[k]
-			what := fmt.Sprintf("%d of the %d handshakes run (cases %d..%d of %d in this class); first: %s", len(w), hi-lo, lo, hi-1, len(cases), w[0])
+			what := fmt.Sprintf("%d reports over the %d handshakes run (cases %d..%d of %d in this class); first: %s", len(w), hi-lo, lo, hi-1, len(cases), w[0])
 			if len(w) > 1 {
 				what += "; last: " + w[len(w)-1]
 			}
@@ -727,6 +727,16 @@ func gen(thorough bool) []e1lib.Scenario {
 		s := scenario("sched|"+name, []hcase{l[len(l)/2]}, false)
 		s.MinB, s.MaxB, s.Budget = 1, 1, 300*time.Second
 		scs = append(scs, s)
+		if thorough && strings.HasSuffix(name, "|agree") && len(l) > 2 {
+			for _, r := range []struct {
+				tag string
+				h   hcase
+			}{{"#first", l[0]}, {"#last", l[len(l)-1]}} {
+				s := scenario("sched|"+name+r.tag, []hcase{r.h}, false)
+				s.MinB, s.MaxB, s.Budget = 1, 1, 300*time.Second
+				scs = append(scs, s)
+			}
+		}
 	}
 	return scs
 }
